@@ -39,6 +39,7 @@ witness is a positive regression theorem (`whole_beyond_int64_regression`).
 -/
 import CtyModel.Lemmas.MsgpackKnown
 import CtyModel.Lemmas.MsgpackMarks
+import CtyModel.Lemmas.d16Text
 import CtyModel.Generated.Limits
 namespace CtyModel
 namespace C16
@@ -152,12 +153,64 @@ theorem infinity_exact (n : Bool) :
     encNum (.inf n) = .f64 (.inf n) ∧ unmarshalNumber (encNum (.inf n)) = .ok (.inf n) := by
   simp [encNum, route, unmarshalNumber]
 
-/-- Every known number that satisfies `numFits` — automatically true on the integer and float
-paths and for every whole number whose mantissa fits 512 bits; for the other numbers: the
-shortest decimal text parses back — decodes to an acceptable number: numerically identical
-if whole or an exact float64, Equal otherwise. -/
+/-- Every known number that satisfies `numFits` decodes to an acceptable number: numerically
+identical if whole or an exact float64, Equal otherwise.  `numFits` is automatically true on the
+integer and float paths and for every whole number whose mantissa fits 512 bits; for a number on
+the `Text('f', -1)` route it IS the conclusion ("the shortest decimal text parses back to an Equal
+number": decided per number, circular as a hypothesis).  The genuine theorems for that route are
+`text_route_exact_partial` and `number_roundtrip_digits` below (hypothesis on digit lists only). -/
 theorem number_roundtrip (x : Num) (h : numFits x = true) :
     ∃ y, unmarshalNumber (encNum x) = .ok y ∧ numBack y x := encNum_back x h
+
+/-! ### The `Text('f', -1)` route (clause "every other number comes back equal")
+
+A number that is not whole and not exactly a float64 is a dyadic rational m·2^e, e < 0, whose
+exact decimal expansion is finite (exactly -e fractional digits).  When the shortest text that
+math/big's `roundShortest` picks IS that expansion (`digitsExactOwn`: a comparison of digit lists,
+nothing is parsed), the decoder — `big.ParseFloat` at 512 bits, an exact division by 5^k·2^k for
+k ≤ 248 fractional digits — gives back the very same mantissa and exponent.  Which numbers are
+NOT covered is named by `Msgpack.textRouteClass` and counted by the harness on every run. -/
+
+/-- Numbers on the text route whose shortest text is exact come back as the SAME mantissa and
+exponent held at 512 bits — numerically identical, not merely Equal — whatever their precision. -/
+theorem text_route_exact_partial (n : Bool) (m : Nat) (e : Int) (p : Nat)
+    (h : digitsExactOwn (.fin n m e p) = true) (hf : (Num.toF64 (.fin n m e p)).2 = false) :
+    encNum (.fin n m e p) = .str (Num.textF (.fin n m e p)) ∧
+    unmarshalNumber (encNum (.fin n m e p)) = .ok (.fin n m e 512) ∧
+    Num.cmp (.fin n m e 512) (.fin n m e p) = 0 := by
+  obtain ⟨h1, h2⟩ := encNum_text_exact n m e p h hf
+  exact ⟨h1, h2, cmp_fin_self n m e 512 p⟩
+
+/-- `number_roundtrip` without a hypothesis that parses anything: if the shortest text of `x` is
+its exact expansion both at its own precision and at 512 bits (`digitsExact`), `x` decodes to an
+acceptable number (Equal in cty's sense: both print the same digits). -/
+theorem number_roundtrip_digits (x : Num) (h : digitsExact x = true) :
+    ∃ y, unmarshalNumber (encNum x) = .ok y ∧ numBack y x := encNum_back x (numFits_of_digits x h)
+
+/-- … and the side condition `boundFits` of the round-trip theorems (a bound of an unknown number
+must come back NUMERICALLY identical) follows from the digit-level condition too. -/
+theorem bound_text_exact (b : Bound) (h : digitsExactOwn b.v = true) : boundFits (some b) = true :=
+  boundFits_of_digits b h
+
+/-- FULL statement for the text route (false): every finite number whose mantissa fits 512 bits
+comes back numerically identical. -/
+def TextRouteExact : Prop :=
+  ∀ x : Num, x.isInf = false → x.minPrec ≤ 512 → ∃ y, unmarshalNumber (encNum x) = .ok y ∧ Num.cmp y x = 0
+
+/-- (2^60+1)·2^-70 held at 61 bits (only reachable through `cty.NumberVal` with a caller-made
+big.Float): not whole, not a float64; its shortest text at 61 bits, "0.000976562500000000001", is
+not its exact expansion (70 digits), and parses at 512 bits to another number.  As a known number
+it still comes back Equal in cty's sense (`numFits` holds: both print the same text); as a BOUND
+of an unknown number it moves (findings `roundtrip-refinement / …-bound-narrowed:
+decimal-nonstandard-precision`).  The same number held at 512 bits satisfies `digitsExact`. -/
+theorem text_route_exact_counterexample : ¬ TextRouteExact := by
+  intro h
+  obtain ⟨y, hy, hc⟩ := h (.fin false (2 ^ 60 + 1) (-70) 61) rfl (by decide)
+  have : (match unmarshalNumber (encNum (.fin false (2 ^ 60 + 1) (-70) 61)) with
+          | .ok y => Num.cmp y (.fin false (2 ^ 60 + 1) (-70) 61) != 0
+          | _ => false) = true := by decide +kernel
+  rw [hy] at this
+  simp [hc] at this
 
 /-- FULL statement (false, but only beyond 512 bits of mantissa): whole numbers of any size
 come back numerically identical. -/
@@ -246,7 +299,8 @@ theorem roundtrip_known_partial (E : Ext) (v : Value) (t : Ty) (hfit : Fits E t 
 approximated, never narrowed or invented. -/
 theorem unknown_type_preserved_partial (E : Ext) (vt t : Ty) (r : Rfn) (hfit : Fits E t ⟨vt, .unk r⟩ = true)
     (hconf : Ty.conformErrs t vt = 0) :
-    ∃ it r', marshal E ⟨vt, .unk r⟩ t = .ok it ∧ Unmarshal E it t = .ok ⟨vt, .unk r'⟩ ∧ Weaker vt r' r := by
+    ∃ it r', marshal E ⟨vt, .unk r⟩ t = .ok it ∧ Unmarshal E it t = .ok ⟨vt, .unk r'⟩ ∧ Weaker vt r' r ∧
+      (vt.isDyn = true ∨ RfnKept r' r) := by
   obtain ⟨it, v', hm, hu, hty, ha⟩ := roundtrip E ⟨vt, .unk r⟩ t hfit
     (by intro n hn; cases vt <;> simp [setNodes] at hn) hconf
   obtain ⟨ty', p'⟩ := v'
@@ -254,6 +308,34 @@ theorem unknown_type_preserved_partial (E : Ext) (vt t : Ty) (r : Rfn) (hfit : F
   subst hty
   cases p' <;> simp only [Approx] at ha <;> try exact ha.elim
   exact ⟨it, _, hm, hu, ha⟩
+
+/-- What `marshalUnknownValue` writes for an unknown value of a type other than the placeholder
+decodes (`unmarshalUnknownValue`) to an unknown value of the same type whose refinement is the
+ORIGINAL one as the wire format keeps it (`RfnKeptE`): nullness, numeric bounds (numerically
+identical, same inclusiveness) and length bounds unchanged; a string prefix unchanged byte for
+byte, unless it is longer than 256 bytes: then it is `ctystrings.SafeKnownPrefix` of its first
+255 bytes.  (Strictly stronger than `Weaker`, which a decoder dropping every refinement would
+satisfy; `Approx` carries the `E`-free form `RfnKept` at every unknown leaf, so
+`roundtrip_covers_partial` states it at any depth.) -/
+theorem unknown_refinement_kept_partial (E : Ext) (vt : Ty) (r : Rfn) (hd : vt.isDyn = false)
+    (h : rfnOK E vt r = true) :
+    ∃ it r', marshalUnknown E vt r = .ok it ∧ unmarshal E it vt = .ok ⟨vt, .unk r'⟩ ∧
+      Weaker vt r' r ∧ RfnKeptE E r' r := by
+  obtain ⟨it, hm, r', hu, hw, hk⟩ := unknown_rt E vt r hd h
+  exact ⟨it, r', hm, hu, hw, hk⟩
+
+/-- `RfnKept` is not satisfied by dropping a refinement: an unknown number with a lower bound does
+not come back unrefined, nor with another bound. -/
+theorem refinement_kept_not_dropped :
+    ¬ RfnKept .unref (.num .u (some ⟨.fin false 1 0 64, true⟩) none) ∧
+    ¬ RfnKept (.num .u (some ⟨.fin false 1 1 64, true⟩) none) (.num .u (some ⟨.fin false 1 0 64, true⟩) none) := by
+  constructor
+  · simp [RfnKept, trivialRfn, Rfn.nullness, keptBody]
+  · simp only [RfnKept, trivialRfn, Rfn.nullness, keptBody]
+    simp only [Option.isNone, Bool.and_false, Bool.false_eq_true, if_false]
+    rintro ⟨lo', hi', heq, hb, _⟩
+    cases heq
+    exact absurd hb.1 (by decide)
 
 /-- Marked values are rejected with an error (not a panic), whatever the constraint. -/
 theorem marked_rejected (E : Ext) (t vt : Ty) (ms : List String) (p : Payload) :
